@@ -180,7 +180,8 @@ pub fn render_entity(table: &TableDef) -> Result<String, String> {
     }
 
     // datetime imports
-    let datetime_imports: Vec<&str> = used_types.datetime_types.iter().copied().collect();
+    let mut datetime_imports: Vec<&str> = used_types.datetime_types.iter().copied().collect();
+    datetime_imports.sort();
     if !datetime_imports.is_empty() {
         lines.push(format!(
             "from datetime import {}",
